@@ -98,6 +98,9 @@ class Real:
     def restore_import_state(self):
         self.hard_reset()
         self.KW.DEFAULT_KEYWORD_CHARS = self.import_state["kw"]
+        for sub in (self.pp.CaselessKeyword,):
+            if "DEFAULT_KEYWORD_CHARS" in vars(sub):          # a setter that wrote to the subclass (never on the unchanged tree)
+                delattr(sub, "DEFAULT_KEYWORD_CHARS")
 
     # -- snapshot in canonical (JSON) form
     def cval(self, v):
@@ -138,7 +141,12 @@ class Real:
         for g in self.groups:
             vals = sorted({("".join(sorted(e.whiteChars)), bool(e.copyDefaultWhiteChars)) for e in g})
             b.append(list(vals[0]) if len(vals) == 1 else ["SPLIT", [list(v) for v in vals]])
-        return {"ws": PE.DEFAULT_WHITE_CHARS, "kw": self.KW.DEFAULT_KEYWORD_CHARS,
+        # the default identifier characters as EVERY keyword class sees them (the setter is inherited: calling it through
+        # CaselessKeyword must set the one default that Keyword and CaselessKeyword share)
+        kwc = self.pp.CaselessKeyword.DEFAULT_KEYWORD_CHARS
+        kwv = self.KW.DEFAULT_KEYWORD_CHARS if kwc == self.KW.DEFAULT_KEYWORD_CHARS else "SPLIT Keyword=%r CaselessKeyword=%r" % (
+            self.KW.DEFAULT_KEYWORD_CHARS, kwc)
+        return {"ws": PE.DEFAULT_WHITE_CHARS, "kw": kwv,
                 "lit": self.lit.index(lit) if lit in self.lit else repr(lit),
                 "verbose": PE.verbose_stacktrace, "packrat": PE._packratEnabled, "pcache": pcache, "parse": parse,
                 "lr": PE._left_recursion_enabled, "memo": memo,
@@ -165,6 +173,8 @@ class Real:
                     PE.set_default_whitespace_chars(op[1])
                 elif k == "kw":
                     self.KW.set_default_keyword_chars(op[1])
+                elif k == "kwsub":
+                    self.pp.CaselessKeyword.set_default_keyword_chars(op[1])
                 elif k == "inline":
                     PE.inline_literals_using(self.lit[op[1]])
                 elif k == "packrat":
@@ -415,7 +425,7 @@ def coq_op(op, names):
     oz = lambda x: "None" if x is None else "(Some (%d)%%Z)" % x
     if k == "ws":
         return "OSetWs %s" % cs(op[1])
-    if k == "kw":
+    if k in ("kw", "kwsub"):
         return "OSetKw %s" % cs(op[1])
     if k == "inline":
         return "OInline %d%%N" % op[1]
@@ -566,9 +576,9 @@ def alphabet(diag_names, small=False):
          ["lr", None, False], ["lr", 3, False], ["lr", 5, True], ["lr", 0, True],
          ["disable"], ["diag_enable", d0], ["all_warnings"], ["diag_enable", "no_such_flag"],
          ["compat_assign", "collect_all_And_tokens", False], ["verbose", True],
-         ["new"], ["copy", 0], ["save"], ["restore", 0], ["restore", 1]]
+         ["new"], ["copy", 0], ["save"], ["restore", 0], ["restore", 1], ["kwsub", "xyz"]]
     if small:
-        return [A[i] for i in (0, 2, 4, 5, 7, 8, 9, 11, 12, 15, 17, 18, 19, 21)]
+        return [A[i] for i in (0, 2, 4, 5, 7, 8, 9, 11, 12, 15, 17, 18, 19, 21, 22)]
     A += [["reset"], ["diag_disable", d0], ["enable_diag", d7], ["disable_diag", d7], ["compat_disable", "collect_all_And_tokens"],
           ["compat_enable", "no_such_flag"], ["copy_builtin", 1], ["ctxcopy", 0], ["lr", 0, False]]
     return A
